@@ -1260,7 +1260,17 @@ func c02Traces(c *Ctx, r *RuleResult, runs []*fsRun, faultFreeOnly bool) {
 	seen := map[string]bool{}
 	for _, run := range runs {
 		r.Role("run")
-		if len(run.Mutated) == 0 || !(strings.HasPrefix(run.Status, "4") || strings.HasPrefix(run.Status, "5")) {
+		if !(strings.HasPrefix(run.Status, "4") || strings.HasPrefix(run.Status, "5")) {
+			continue
+		}
+		if len(run.Mutated) == 0 {
+			if faultFreeOnly {
+				// a refusal that touched nothing (counted once per method and status)
+				if _, feasible, faults, forced := run.replay(); feasible && faults == 0 && len(forced) == 0 && !seen["clean|"+run.Method+"|"+run.Status] {
+					seen["clean|"+run.Method+"|"+run.Status] = true
+					r.Ob(true)
+				}
+			}
 			continue
 		}
 		changes, feasible, faults := run.netChange()
